@@ -18,7 +18,7 @@ SELFTEST = {'quick': 16, 'thorough': 128}
 TOL = 1e-11
 REQUIRED_PROBES = ['fn_pert', 'fn_rho', 'storage_complex128', 'storage_float64', 'two_finders_on_one_spline', 'data_equilibrium']
 RULE = ("Every check: in 12% of the cases one or two bystander ranks share the simulated job and the code under test runs on world.Split(...); one case in HASHSEED_EVERY is re-run in fresh interpreters under other string-hash seeds and every rank's trace (collectives, data sent, result) must agree. "
-        'Also: a second finder on the same spline (40%), the same finder called again with other data and the other function (40%) and on a distribution function over another process grid (40%), a finder on a graded (symmetric or one-sided) velocity mesh with the same degree, size and end points (25%), other degrees in r, theta, z (20%). '
+        'Also: a second finder on the same spline (40%), the same finder called again with other data and the other function (40%) and on a distribution function over another process grid (40%), a finder on a graded (symmetric or one-sided) velocity mesh with the same degree, size and end points (25%), other degrees in r, theta, z (20%), 261-384 velocity points (3%). '
         'case = (grid sizes incl. several v sizes, equilibrium profiles made strongly radius dependent '
         '[kN0, kTi randomised], 1-3 process grids incl. non-dividing ones, density storage real or complex, '
         'getRho or getPerturbedRho, input kind: random / random spline in the space / the equilibrium itself / '
